@@ -41,6 +41,11 @@ def problems():
                         bounds=np.array([[-4.0, 4.0], [-4.0, 0.0], [-1.0, 4.0]]))
     out["quartic4"] = dict(f=lbfgsb.quartic, g=lbfgsb.quartic_grad, x0=np.array([1.0, -1.5, 0.7, 2.0]),
                            bounds=np.array([[-2.0, 2.0], [-2.0, 2.0], [0.5, 2.0], [-2.0, 2.5]]))
+    # a saddle inside a box: curvature pairs get rejected (s.y <= 0) in mid-run
+    Dg = np.array([1.0, 2.0, -1.5])
+    cs = np.array([0.3, -0.4, 0.2])
+    out["saddle3"] = dict(f=lambda x: float(0.5 * (Dg * x).dot(x) + cs.dot(x) + 0.05 * np.sum(x ** 4)), g=lambda x: Dg * x + cs + 0.2 * x ** 3,
+                          x0=np.array([1.0, 0.5, 0.1]), bounds=np.array([[-1.0, 3.0], [-2.0, 2.0], [-1.0, 1.0]]))
     # objectives on which short line searches (small maxls) fail in mid-run
     out["expdrop1"] = dict(f=lambda x: float(np.sum(x + np.exp(-10.0 * x))), g=lambda x: 1.0 - 10.0 * np.exp(-10.0 * x),
                            x0=np.array([-0.5]), bounds=np.array([[-2.0, 2.0]]))
@@ -293,7 +298,8 @@ def _single_one(c, name, p, out):
     ck_obj = None
     history = None
     if c.get("checkpoint"):
-        first = run_once(p, dict(maxiter=c["ck_nit"], maxfun=10 ** 6, maxcor=c.get("ck_maxcor", c.get("maxcor", 10)), ftol=0.0, gtol=0.0), L=L)
+        # a checkpoint without pairs comes from an 'evaluate only' run (maxiter=0)
+        first = run_once(p, dict(maxiter=0 if c.get("ck_pairs") == 0 else c["ck_nit"], maxfun=10 ** 6, maxcor=c.get("ck_maxcor", c.get("maxcor", 10)), ftol=0.0, gtol=0.0), L=L)
         if first["exc"] is not None:
             out.append(dict(problem=name, error="first leg raised %r" % (first["exc"],)))
             return
@@ -536,6 +542,8 @@ def scenario_update(c):
                     yy = np.einsum("ij,ij->i", yk, yk)
                     if np.any(sy <= eps * yy):
                         bad.setdefault("C13.retained_pairs_satisfy_curvature", "%s switch at update %d (ftol=%g): result carries a pair with s.y=%s <= eps*y.y" % (kind, at, ftol, sy.tolist()))
+                        if np.any(sy <= 0):
+                            bad.setdefault("C18.pairs_have_positive_curvature", "%s switch at update %d (ftol=%g): result.hess_inv carries a pair with s.y=%s <= 0" % (kind, at, ftol, sy.tolist()))
                 if ftol != 0.0 or R["res"].nit <= at - 0:
                     continue
                 # reference: restart on the new objective from the checkpoint holding the rewritten, filtered history
@@ -560,6 +568,58 @@ def scenario_update(c):
                         bad.setdefault("C13.next_iterate_as_restart_on_new_objective",
                                        "%s switch at update %d: next iterate %s, a restart on the new objective from the rewritten history gives %s (pairs kept: %d)" % (
                                            kind, at, R["snap"]["x"].tolist(), C["snap"]["x"].tolist(), skr.shape[0]))
+        # ---- arbitrary gradient rewrite that breaks the curvature of an INTERIOR pair (pattern rewrite)
+        for nstored in (3, 4):
+            state = dict(calls=0, seen=None)
+
+            def upd2(x, f0, f0_old, grad, X, G, _n=nstored):
+                state["calls"] += 1
+                if len(X) != _n or state["seen"] is not None:
+                    return f0, f0_old, grad, G
+                Xl = [np.array(v, float) for v in X]
+                newG = [np.array(v, float) for v in G]
+                m = len(Xl) - 1
+                sb = Xl[m] - Xl[m - 1]
+                sa = Xl[m - 1] - Xl[m - 2]
+                # wanted: newest stored pair invalid (p_{m-1} dropped), the pair before it valid against the dropped
+                # point but invalid against the retained p_m
+                rng = np.random.RandomState(7)
+                ya = yb = None
+                for _ in range(4000):
+                    cand_b = -abs(rng.randn()) * (sb if rng.rand() < 0.5 else sa + sb) + 0.3 * rng.randn(sb.size) * np.linalg.norm(sb)
+                    cand_a = abs(rng.randn()) * sa + 0.5 * rng.randn(sa.size) * np.linalg.norm(sa)
+                    if sb.dot(cand_b) < -1e-6 and sa.dot(cand_a) > 1e-6 and (sa + sb).dot(cand_a + cand_b) < -1e-6:
+                        ya, yb = cand_a, cand_b
+                        break
+                if ya is None:
+                    return f0, f0_old, grad, G
+                newG[m] = newG[m - 1] + yb
+                newG[m - 2] = newG[m - 1] - ya
+                state["seen"] = dict(X=Xl, G=[g.copy() for g in newG], x=np.array(x, float).copy())
+                return f0, f0_old, grad, deque(newG)
+            stop_at = dict(k=None)
+
+            def cb(xk, st):
+                return state["seen"] is not None
+            R = run_once(p, dict(maxiter=12, maxfun=10 ** 6, maxls=20, maxcor=6, ftol=0.0, gtol=1e-14), extra=dict(update_fun_def=upd2, callback=cb))
+            if state["seen"] is None:
+                continue
+            if R["exc"] is not None:
+                # an invalid pair left in the history makes the factorisation of the middle matrix fail
+                bad.setdefault("C13.retained_pairs_satisfy_curvature", "gradient rewrite breaking an interior pair with %d stored points: the run raises %s: %s (a pair with non-positive curvature reached the matrix factorisation)" % (nstored, type(R["exc"]).__name__, str(R["exc"])[:120]))
+                bad.setdefault("C18.pairs_have_positive_curvature", bad["C13.retained_pairs_satisfy_curvature"])
+                continue
+            sk, yk = R["snap"]["sk"], R["snap"]["yk"]
+            if sk.size:
+                sy = np.einsum("ij,ij->i", sk, yk)
+                yy = np.einsum("ij,ij->i", yk, yk)
+                if np.any(sy <= eps * yy):
+                    bad.setdefault("C13.retained_pairs_satisfy_curvature", "gradient rewrite breaking an interior pair with %d stored points: result carries a pair with s.y=%s" % (nstored, sy.tolist()))
+                    if np.any(sy <= 0):
+                        bad.setdefault("C18.pairs_have_positive_curvature", "gradient rewrite breaking an interior pair: result.hess_inv carries a pair with s.y=%s <= 0" % (sy.tolist(),))
+                pts = [(a, b) for a, b in zip(state["seen"]["X"], state["seen"]["G"])] + [(R["snap"]["x"], R["snap"]["jac"])]
+                if not chain_ok(sk, yk, pts):
+                    bad.setdefault("C13.pairs_are_differences_of_rewritten_gradients", "after a gradient rewrite the result pairs are not differences of the rewritten gradients at stored points")
         out.append(dict(problem=name, violated=bad))
     return dict(runs=out)
 
